@@ -2,6 +2,7 @@ package dbdrv
 
 import (
 	"fmt"
+	"sync/atomic"
 	"math/rand/v2"
 	"os"
 	"path/filepath"
@@ -15,10 +16,13 @@ import (
 // runRatchet: C40.  Open at format major version `from` with data in tables and
 // in the WAL, ratchet to `to` with crash probes at every filesystem write op
 // (all survival subsets of up to 5 unsynced items), then check the result.
-func runRatchet(u Univ, from, to pebble.FormatMajorVersion, seed uint64, path string) (int, int, error) {
+// faultAt > 0: the faultAt-th filesystem write op issued during the ratchet call fails once (an
+// injected I/O error, no crash); the failed call is followed by a retry that must succeed and be
+// as durable as any successful ratchet.  fired reports whether the fault index was reached.
+func runRatchet(u Univ, from, to pebble.FormatMajorVersion, seed uint64, path string, faultAt int) (events, probes int, fired bool, err error) {
 	t, err := NewTrace(path)
 	if err != nil {
-		return 0, 0, err
+		return 0, 0, false, err
 	}
 	defer t.Close()
 	cfg := Config{Name: fmt.Sprintf("fmv%d", int(from)), FMV: from, MemTableSize: 64 << 10, L0Threshold: 4, SmallFiles: true,
@@ -27,12 +31,31 @@ func runRatchet(u Univ, from, to pebble.FormatMajorVersion, seed uint64, path st
 	rng := rand.New(rand.NewPCG(seed, seed^0x51ab))
 	c := &crashCtl{mem: mem, rng: rng, every: 1, maxSubset: 5, randSub: 2, maxProbes: 3000, opKinds: map[string]int{},
 		noWAL: false, fmvlo: int(from), fmvhi: int(from)}
-	r := NewRunner(u, cfg, errorfs.Wrap(mem, c.injector()), "db", t)
+	var faultArmed atomic.Bool
+	var faultN atomic.Int64
+	faulty := errorfs.InjectorFunc(func(op errorfs.Op) error {
+		// not the WAL: a failed WAL write is fatal by design (the commit pipeline panics on it),
+		// and the background WAL flusher shares this window with the ratchet
+		// nor fsync: fsync errors are unrecoverable by design (Marker.Move panics on a failed
+		// directory sync, citing fsyncgate)
+		// nor MANIFEST appends: a failed MANIFEST write is fatal by design (Logger.Fatalf)
+		if !faultArmed.Load() || !op.Kind.IsWrite() || fileClass(op.Path) == "wal" ||
+			(fileClass(op.Path) == "manifest" && op.Kind != errorfs.OpCreate) ||
+			op.Kind == errorfs.OpFileSync || op.Kind == errorfs.OpFileSyncData || op.Kind == errorfs.OpFileSyncTo {
+			return nil
+		}
+		if faultN.Add(1) == int64(faultAt) {
+			fired = true
+			return errorfs.ErrInjected
+		}
+		return nil
+	})
+	r := NewRunner(u, cfg, errorfs.Wrap(errorfs.Wrap(mem, faulty), c.injector()), "db", t)
 	r.Crash = c
 	c.r = r
 	c.disabled = true
 	if err := r.Open(); err != nil {
-		return 0, 0, err
+		return 0, 0, false, err
 	}
 	prof := Profile{Name: "C40", W: map[string]int{}, RangeKeys: 1, LatestCls: "latest"}
 	g := NewGen(r, prof, seed)
@@ -66,6 +89,15 @@ func runRatchet(u Univ, from, to pebble.FormatMajorVersion, seed uint64, path st
 		t.Mu.Lock() // bounds change under the trace mutex: never in the middle of a probe
 		c.fmvhi = int(to)
 		t.Mu.Unlock()
+		if faultAt > 0 {
+			// one injected error somewhere inside the ratchet (no crash probes during this attempt)
+			faultArmed.Store(true)
+			ferr := r.DB.RatchetFormatMajorVersion(to)
+			faultArmed.Store(false)
+			if ferr != nil {
+				t.Emit(Ev{"op": "ratchetfail", "from": int(from), "to": int(to), "got": int(r.DB.FormatMajorVersion()), "err": ferr.Error(), "n": faultAt})
+			}
+		}
 		c.disabled = false
 		rerr := r.DB.RatchetFormatMajorVersion(to)
 		c.disabled = true
@@ -122,7 +154,7 @@ func runRatchet(u Univ, from, to pebble.FormatMajorVersion, seed uint64, path st
 	t.Mu.Lock()
 	t.FlushBufLocked()
 	t.Mu.Unlock()
-	return t.N, c.probes, r.Fatal
+	return t.N, c.probes, fired, r.Fatal
 }
 
 // TestRatchet: VERIF_OUT, VERIF_SEED, VERIF_PAIRS (number of (from,to) pairs; 0 = all)
@@ -150,12 +182,34 @@ func TestRatchet(t *testing.T) {
 	probes, events := 0, 0
 	for i, p := range pairs {
 		path := filepath.Join(out, fmt.Sprintf("R-%d-%03d-%d-%d.ndjson", seed, i, int(p.from), int(p.to)))
-		ne, np, ferr := runRatchet(u, p.from, p.to, seed*131+uint64(i), path)
+		ne, np, _, ferr := runRatchet(u, p.from, p.to, seed*131+uint64(i), path, 0)
 		probes += np
 		events += ne
 		if ferr != nil {
 			fmt.Fprintf(os.Stdout, "DRIVER-FAIL %s: %v\n", path, ferr)
 		}
 	}
-	fmt.Fprintf(os.Stdout, "DRIVER-DONE traces=%d events=%d probes=%d\n", len(pairs), events, probes)
+	// single-fault enumeration: every filesystem write op of the ratchet fails once, then a retry
+	nf := 0
+	maxFaultPairs := envInt("VERIF_FAULTPAIRS", 4)
+	for i, p := range pairs {
+		if i >= maxFaultPairs {
+			break
+		}
+		for n := 1; n <= 60; n++ {
+			path := filepath.Join(out, fmt.Sprintf("RF-%d-%03d-%d-%d-f%02d.ndjson", seed, i, int(p.from), int(p.to), n))
+			ne, np, fired, ferr := runRatchet(u, p.from, p.to, seed*131+uint64(i), path, n)
+			probes += np
+			events += ne
+			nf++
+			if ferr != nil {
+				fmt.Fprintf(os.Stdout, "DRIVER-FAIL %s: %v\n", path, ferr)
+			}
+			if !fired {
+				break
+			}
+		}
+	}
+	fmt.Fprintf(os.Stdout, "DRIVER-FAULTRUNS %d\n", nf)
+	fmt.Fprintf(os.Stdout, "DRIVER-DONE traces=%d events=%d probes=%d\n", len(pairs)+nf, events, probes)
 }
